@@ -578,8 +578,9 @@ class Dict(dict, base.Symbolic, pg_typing.CustomTyping):
     if (self.sym_parent is not None
         and self.sym_parent.sym_path == self.sym_path):
       target = self.sym_parent
+    # NOTE: `self.sym_path + key` would parse a string key as a path.
     return base.FieldUpdate(
-        self.sym_path + key, target, field, old_value, new_value)
+        utils.KeyPath(key, self.sym_path), target, field, old_value, new_value)
 
   def _detach(self, value: Any) -> None:
     """Detaches a removed or replaced value from the object tree."""
